@@ -726,7 +726,7 @@ func c18NATTimeout(p *Prog, r *Report, rule string) {
 				rhs := exprStr(n.Rhs[0])
 				if sel, ok := ast.Unparen(n.Rhs[0]).(*ast.SelectorExpr); ok && sel.Sel.Name == "MinNATTimeout" {
 					if io := objOf(uinfo, sel.X); io != nil {
-						if src, _, _, okd := ur.SoleDefRHS(io); okd && strings.HasSuffix(exprStr(src), "sessionServer.Info()") {
+						if src, _, _, okd := ur.SoleDefRHS(io); okd && isSessionServerInfoCall(uinfo, src) {
 							okProv = true
 							minDef = d
 							if c, isCall := ast.Unparen(src).(*ast.CallExpr); isCall {
@@ -769,7 +769,11 @@ func c18NATTimeout(p *Prog, r *Report, rule string) {
 	}
 	// … that assignment happens in every case that builds a session server
 	if okProv {
-		build := casesWithStmt(ur, "sessionServer =")
+		buildKey := "sessionServer ="
+		if srvObj != nil {
+			buildKey = srvObj.Name() + " ="
+		}
+		build := casesWithStmt(ur, buildKey)
 		assign := casesWithStmt(ur, ".MinNATTimeout")
 		okProv = strings.Join(build, ",") == strings.Join(assign, ",") && len(build) > 0
 	}
@@ -1412,4 +1416,14 @@ func c18R5(p *Prog, r *Report) {
 		r.Check(ok && n >= 1, rule, "service.(*ServerConfig)."+b+":unknown-protocol-is-error", p.posStr(fc.Body.Pos()), "unknown protocols are refused", "an unknown protocol does not end in an error")
 	}
 	r.Floor(rule, 5)
+}
+
+// isSessionServerInfoCall: e is <a zerocopy.UDPSessionServer value>.Info().
+func isSessionServerInfoCall(info *types.Info, e ast.Expr) bool {
+	c, ok := ast.Unparen(e).(*ast.CallExpr)
+	if !ok {
+		return false
+	}
+	sel, ok := ast.Unparen(c.Fun).(*ast.SelectorExpr)
+	return ok && sel.Sel.Name == "Info" && namedTypeName(info.TypeOf(sel.X)) == "UDPSessionServer"
 }
